@@ -3,8 +3,8 @@
 package dcs
 
 import (
-	"strings"
 	"fmt"
+	"strings"
 	"testing"
 	"testing/synctest"
 	"time"
